@@ -72,11 +72,12 @@ type measured struct {
 	Excess      bool    `json:"excess,omitempty"`
 	Measured    bool    `json:"measurable"`
 	Unconfirmed bool    `json:"unconfirmed,omitempty"`
+	Refined     bool    `json:"refined,omitempty"`
 }
 
 // measure returns the time of one call: the minimum over nSamples samples of k calls each (k such that a sample lasts
 // at least sampleTarget); calls slower than slowCall are sampled twice.
-func measure(d *decoder, b []byte, arg int) (wall, cpu time.Duration, calls int, ret string, pan interface{}, stack string) {
+func measure(d *decoder, b []byte, arg int, mult int) (wall, cpu time.Duration, calls int, ret string, pan interface{}, stack string) {
 	o := callDecoder(d, b, arg)
 	if o.pan != nil {
 		return 0, 0, 1, "", o.pan, o.stack
@@ -101,7 +102,7 @@ func measure(d *decoder, b []byte, arg int) (wall, cpu time.Duration, calls int,
 	}
 	calls = 1
 	one := sample(1)
-	k, n := 1, nSamples
+	k, n := 1, nSamples*mult
 	if one < sampleTarget {
 		k = int(sampleTarget/(one+1)) + 1
 		if k > 20000 {
@@ -109,7 +110,7 @@ func measure(d *decoder, b []byte, arg int) (wall, cpu time.Duration, calls int,
 		}
 	}
 	if one > slowCall {
-		n = 1
+		n = mult
 	}
 	for s := 0; s < n; s++ {
 		sample(k)
@@ -226,6 +227,23 @@ func annotate(s []measured, j int) {
 // implementation (the stack outgrows the caches), too close to 3.2x = 2^1.68 over two doublings only.
 const span = 3
 
+var alarmSum = float64(span) * math.Log2(growthLimit)
+
+// spanSum is the growth exponent summed over the span doublings that end at point j, per clock (0 if not measurable).
+func spanSum(s []measured, j int) (wall, cpu float64) {
+	if j < span {
+		return 0, 0
+	}
+	for k := j - span + 1; k <= j; k++ {
+		if !s[k].Measured {
+			return 0, 0
+		}
+		wall += s[k].ExpWall
+		cpu += s[k].ExpCPU
+	}
+	return
+}
+
 // excessAt decides the alarm for the span doublings that end at point j: the time grew by more than 3.2^span over
 // them (the product does not depend on the noise of the points in between), each doubling is clearly superlinear,
 // and that on the CPU clock and on the wall clock.
@@ -233,16 +251,19 @@ func excessAt(s []measured, j int) bool {
 	if j < span {
 		return false
 	}
-	lim, each := float64(span)*math.Log2(growthLimit), 1.3
-	var sumWall, sumCPU float64
 	for k := j - span + 1; k <= j; k++ {
-		if !s[k].Measured || s[k].ExpWall <= each || s[k].ExpCPU <= each {
+		if !s[k].Measured || s[k].ExpWall <= 1.3 || s[k].ExpCPU <= 1.3 {
 			return false
 		}
-		sumWall += s[k].ExpWall
-		sumCPU += s[k].ExpCPU
 	}
-	return sumWall > lim && sumCPU > lim
+	w, c := spanSum(s, j)
+	return w > alarmSum && c > alarmSum
+}
+
+// candidateAt: worth a closer look (2^0.8 below the alarm on either clock).
+func candidateAt(s []measured, j int) bool {
+	w, c := spanSum(s, j)
+	return w > alarmSum-0.8 && c > alarmSum-0.8
 }
 
 func deviationOfFamily(name string) string {
@@ -277,9 +298,9 @@ func scaleBatch(c *rp.Ctx, raws []json.RawMessage) []rp.Result {
 		series := map[string][]measured{}
 		inputs := map[string][][]byte{}
 		result := rp.Result{I: i, OK: true, Nontriv: true}
-		timed := func(d *decoder, in []byte) (time.Duration, time.Duration, int, string, interface{}, string) {
+		timed := func(d *decoder, in []byte, mult int) (time.Duration, time.Duration, int, string, interface{}, string) {
 			w.begin(fmt.Sprintf("timing decoder %s on scaling family %s at %d bytes", d.name, cs.Name, len(in)))
-			wall, cpu, k, ret, pan, stack := measure(d, in, cs.Arg)
+			wall, cpu, k, ret, pan, stack := measure(d, in, cs.Arg, mult)
 			w.end()
 			calls += int64(k)
 			return wall, cpu, k, ret, pan, stack
@@ -298,7 +319,7 @@ func scaleBatch(c *rp.Ctx, raws []json.RawMessage) []rp.Result {
 				if d == nil {
 					rp.Bug("family %s: unknown decoder %q", cs.Name, dn)
 				}
-				wall, cpu, k, ret, pan, stack := timed(d, input)
+				wall, cpu, k, ret, pan, stack := timed(d, input, 1)
 				label := fmt.Sprintf("scaling family %s at %d bytes", cs.Name, len(input))
 				if pan != nil {
 					f := &failure{dec: dn, what: fmt.Sprintf("panic: %v", pan), deviation: classify(dn, pan, stack), input: input, stack: stack, label: label}
@@ -326,32 +347,42 @@ func scaleBatch(c *rp.Ctx, raws []json.RawMessage) []rp.Result {
 		for _, dn := range sortedSeries(series) {
 			s := series[dn]
 			n := len(s)
-			if !result.OK || !excessAt(s, n-1) {
+			if !result.OK || !candidateAt(s, n-1) {
 				continue
 			}
-			s[n-1].Excess = true
-			// measure the points of the alarm once more: noise does not repeat itself
+			// A candidate: measure the four points again with more samples and keep the minima (noise only ever adds
+			// time), once more if the outcome is still close to the limit.  The verdict is taken on the refined series.
+			first := append([]measured{}, s[n-1-span:]...)
 			d := decoderByName[dn]
-			again := make([]measured, span+1)
-			for j := range again {
-				in := inputs[dn][n-1-span+j]
-				w2, c2, k2, _, _, _ := timed(d, in)
-				again[j] = measured{Bytes: len(in), WallUs: float64(w2) / 1e3, CPUUs: float64(c2) / 1e3, Calls: k2}
-				annotate(again, j)
+			for round, mult := 0, 2; round < 2; round, mult = round+1, mult*2 {
+				for j := n - 1 - span; j < n; j++ {
+					w2, c2, k2, _, _, _ := timed(d, inputs[dn][j], mult)
+					s[j].WallUs = math.Min(s[j].WallUs, float64(w2)/1e3)
+					s[j].CPUUs = math.Min(s[j].CPUUs, float64(c2)/1e3)
+					s[j].Calls += k2
+					s[j].Refined = true
+				}
+				for j := n - span; j < n; j++ {
+					annotate(s, j)
+				}
+				if w, c := spanSum(s, n-1); math.Abs(w-alarmSum) > 0.5 && math.Abs(c-alarmSum) > 0.5 {
+					break
+				}
 			}
-			if !excessAt(again, span) {
+			if !excessAt(s, n-1) {
 				s[n-1].Unconfirmed = true
 				continue
 			}
-			what := fmt.Sprintf("decoder %s, family %s: the time per call grows faster than %.1fx per doubling over the last three doublings (measured twice): ", dn, cs.Name, growthLimit)
-			for _, q := range s[maxInt(0, n-1-span):] {
+			s[n-1].Excess = true
+			what := fmt.Sprintf("decoder %s, family %s: the time per call grows faster than %.1fx per doubling over the last three doublings: ", dn, cs.Name, growthLimit)
+			for _, q := range s[n-1-span:] {
 				what += fmt.Sprintf("%d bytes: %.0f us wall / %.0f us cpu (exponent %.2f / %.2f); ", q.Bytes, q.WallUs, q.CPUUs, q.ExpWall, q.ExpCPU)
 			}
-			what += "again:"
-			for _, q := range again {
+			what += "first measurement:"
+			for _, q := range first {
 				what += fmt.Sprintf(" %.0f us (%.2f)", q.WallUs, q.ExpWall)
 			}
-			result = rp.Result{I: i, OK: false, Nontriv: true, What: what, Deviation: deviationOfFamily(cs.Name), Observed: map[string]interface{}{"series": s, "again": again}}
+			result = rp.Result{I: i, OK: false, Nontriv: true, What: what, Deviation: deviationOfFamily(cs.Name), Observed: map[string]interface{}{"series": s, "first": first}}
 		}
 		report[cs.Name] = series
 		elapsed[cs.Name] = time.Since(famStart).Milliseconds()
